@@ -149,6 +149,15 @@ fn register_decode_and_mixer() {
     let mut ay = <AymPrecise as AymBackend>::new(SoundChip::AY, AyMode::Mono, 1773400, 44100);
     let regs: [u8; 14] = kani::any();
     ay.registers = regs;
+    // representation invariant: the generator's per-channel settings are the decode of the register file
+    let mut i = 0;
+    while i < 3 {
+        ay.channels[i].tone_off_bit = ((regs[7] >> i) & 1) as usize;
+        ay.channels[i].noise_off_bit = ((regs[7] >> (i + 3)) & 1) as usize;
+        ay.channels[i].envelope_enabled = regs[8 + i] & 0x10 != 0;
+        ay.channels[i].volume = (regs[8 + i] & 0x0F) as usize;
+        i += 1;
+    }
     let a: u8 = kani::any();
     let v: u8 = kani::any();
     ay.write_register(a, v);
@@ -159,6 +168,17 @@ fn register_decode_and_mixer() {
     let mut r = regs;
     r[a as usize] = v;
     kani::assert(ay.registers == r, "C18: register file updated");
+    // ... and is re-established by every register write, whatever the write order
+    let mut i = 0;
+    while i < 3 {
+        kani::assert(ay.channels[i].tone_off_bit == ((r[7] >> i) & 1) as usize
+            && ay.channels[i].noise_off_bit == ((r[7] >> (i + 3)) & 1) as usize,
+            "C18: mixer bits gate tone and noise per channel (invariant over any write order)");
+        kani::assert(ay.channels[i].envelope_enabled == (r[8 + i] & 0x10 != 0)
+            && ay.channels[i].volume == (r[8 + i] & 0x0F) as usize,
+            "C18: volume / follow-envelope of each channel come from its own amplitude register (invariant over any write order)");
+        i += 1;
+    }
     let tp = |lo: u8, hi: u8| { let p = (lo as u16) | (((hi & 0x0F) as u16) << 8); if p == 0 { 1 } else { p } };
     match a {
         0 | 1 => kani::assert(ay.channels[0].tone_period == tp(r[0], r[1]), "C18: R0/R1 = tone A period"),
